@@ -32,9 +32,10 @@ import (
 //       unit of that decimal (+1e-9 relative) of (v-min)*100/(max-min).
 //   bytesize/bytesizesi/downscale: "<number><blank?><unit>"; the unit letter
 //       fixes a rank r (B K M G T P E Z, case not asserted / "" k M B T);
+//       a scaled number has exactly `precision` decimals (default 0);
 //       number*step^r is within half a unit of the last printed decimal of n
 //       (+1e-9 relative); step^r <= |n| and, unless r is the last unit,
-//       |n| < step^(r+1) (both with 1e-9 slack for the double arithmetic).
+//       |n| < step^(r+1) (exact below 2^40, 1e-9 slack above for the doubles).
 //
 // Left open and not generated: bytesize of negatives or above MaxInt64,
 // negative or non-constant precision, percent with min >= max, hf beyond
@@ -301,6 +302,7 @@ func checkNumFmt(c Case) error {
 		if len(v) > 2 {
 			return nil
 		}
+		prec := 0 // documented default: [precision=0]
 		if len(v) == 2 {
 			if c.Args[1].Via != "const" {
 				return nil
@@ -309,6 +311,7 @@ func checkNumFmt(c Case) error {
 			if err != nil || p < 0 || p > 12 || strconv.Itoa(p) != v[1] {
 				return nil
 			}
+			prec = p
 		}
 		n, _ := canonInt(v[0])
 		if c.Fn != "downscale" && n < 0 {
@@ -338,6 +341,11 @@ func checkNumFmt(c Case) error {
 		if !ok {
 			return fail(c, r, "unknown unit %q", m[3])
 		}
+		// "An optional precision allows adding decimals": scaled values carry
+		// exactly `precision` decimals; unscaled ones (rank 0) may stay whole.
+		if d := decimalsOf(m[1]); d != prec && !(rank == 0 && d == 0) {
+			return fail(c, r, "want %d decimals, got %d", prec, d)
+		}
 		mult := new(big.Int).Exp(bigOf(step), big.NewInt(int64(rank)), nil)
 		shown := new(big.Rat).Mul(ratOf(m[1]), new(big.Rat).SetInt(mult))
 		exact := new(big.Rat).SetInt64(n)
@@ -349,9 +357,15 @@ func checkNumFmt(c Case) error {
 			return fail(c, r, "%s x %d^%d = %s is not %d to the printed precision", m[1], step, rank, fstr(shown), n)
 		}
 		// the unit: step^rank <= |n| (< step^(rank+1) unless last), with slack for doubles
+		// below 2^40 a boundary is at least 1e-12 (relative) away from its
+		// neighbours, far beyond double rounding: no slack there.
 		absn := absRat(exact)
-		slackLo := new(big.Rat).Mul(absn, new(big.Rat).Add(big.NewRat(1, 1), relTol))
-		slackHi := new(big.Rat).Mul(absn, new(big.Rat).Sub(big.NewRat(1, 1), relTol))
+		slack := new(big.Rat)
+		if absn.Cmp(new(big.Rat).SetInt64(1<<40)) >= 0 {
+			slack = relTol
+		}
+		slackLo := new(big.Rat).Mul(absn, new(big.Rat).Add(big.NewRat(1, 1), slack))
+		slackHi := new(big.Rat).Mul(absn, new(big.Rat).Sub(big.NewRat(1, 1), slack))
 		if rank > 0 && slackLo.Cmp(new(big.Rat).SetInt(mult)) < 0 {
 			return fail(c, r, "unit too large: |n| < %d^%d", step, rank)
 		}
@@ -382,7 +396,7 @@ func classifyNumFmt(c Case) (bool, []string) {
 var specNumFmt = pbt.Spec[Case]{
 	Property: prop, Name: "number-format",
 	Rule:     "hi of any int64 (boundaries incl. MinInt64, every digit count); hf of decimals incl. values hugging 1000^k from below; percent with 1-4 arguments, constant precision 0-6, min<max; bytesize/bytesizesi (0..MaxInt64) and downscale (any int64) around m*step^k+-2 with optional constant precision 0-6; first argument via constant/group/key; oracles: grouping regexp + separators removed equals the input (hi) or the input rounded to the shown decimals (hf), the percent formula to half a unit of the last decimal, unit rank and value to the printed precision; 1 in 15 non-numeric. Every case non-trivial; labels show digit-count classes, unit ranks and boundaries",
-	Budget:   pbt.Budget{Quick: 80000, Thorough: 4000000},
+	Budget:   pbt.Budget{Quick: 25000, Thorough: 200000},
 	Gen:      genNumFmt,
 	Check:    checkNumFmt,
 	Classify: classifyNumFmt,
